@@ -269,11 +269,22 @@ class Static(Family):
 
     def key(self, case, obs):
         ks = set()
-        kinds = {e[0] for e in obs["ents"]}
         for o in obs["res"]:
             r = o["r"]
             ks.add(r[0] if r[0] == "reject" else ":".join(str(t) for t in r[1:3]))
-        return ",".join(sorted(ks))[:80] + ("+links" if "l" in kinds else "")
+        links = [e for e in obs["ents"] if e[0] == "l"]
+        feat = ""
+        if any("out" in e[2] or "root-evil" in e[2] for e in links):
+            feat += "O"                      # link leaving the root
+        if any(e[2] == e[1].rsplit("/", 1)[-1] for e in links):
+            feat += "C"                      # cyclic link
+        if any(e[1].rsplit("/", 1)[-1] in ("index.gmi", "index.gemini") for e in links):
+            feat += "I"                      # index file that is a link
+        if any(T.UNDEC in e[1] for e in obs["ents"]):
+            feat += "U"                      # undecodable file name
+        if links and not feat:
+            feat = "L"
+        return (feat or "-") + "|" + ",".join(sorted(ks))[:70]
 
 
 def _wire_of(e):
@@ -292,8 +303,8 @@ class CanonFam(Family):
             "%g1", "%1g", "%%", "A", "~", "+", "�", "e", "2", "%E2%82%AC", "%zz"]
 
     def gen(self, rng, n):
-        for s in ["", "/", "//", "/.", "/..", "/a/..", "/a/../", "/a/./b/../c", "//app/%2e%2e/x/", "/%2e%2e/%2e%2e/etc", "/a%2fb/../c", "/%252e%252e/x",
-                  "/a/b/..", "/a/b/.", "/a/b/", "a", "a/b", "..", "%", "/%E2%82", "/%E2%82%C2%AC", "/%F0%80%80", "/%C3©", "/%ED%A0%80", "/%F4%90%80%80"]:
+        for s in self.share(["", "/", "//", "/.", "/..", "/a/..", "/a/../", "/a/./b/../c", "//app/%2e%2e/x/", "/%2e%2e/%2e%2e/etc", "/a%2fb/../c", "/%252e%252e/x",
+                  "/a/b/..", "/a/b/.", "/a/b/", "a", "a/b", "..", "%", "/%E2%82", "/%E2%82%C2%AC", "/%F0%80%80", "/%C3©", "/%ED%A0%80", "/%F4%90%80%80"]):
             yield {"p": s}
         for _ in range(n):
             yield {"p": "".join(rng.choice(self.ALPH) for _ in range(rng.randint(0, 12)))}
